@@ -41,6 +41,11 @@ type world struct {
 	parked   *mon.Call // reply family: the filler send that is parked on the full queue
 	draining bool
 	outcome  string
+	// preFill: run by prepareSend (reply family) once the peer is connected and the filler exists,
+	// before the first filling Send is issued (nothing is parked yet)
+	preFill func() bool
+	blk     *blocker // dl-behind: the call that is already blocked when the timed call is issued
+	blkCtx  mangos.Context
 	// rdl: a receive deadline in force on the subject while it is used for SENDING (the other
 	// direction's deadline): the set-up Recv of a request may then time out before the request arrived
 	rdl time.Duration
@@ -217,7 +222,7 @@ func newWorld(c *mon.Case, sp spec) *world {
 		if w.outcome != "" {
 			c.Count("outcome_"+sp.Kind+"_"+w.outcome, 1)
 		}
-		c.Sig("%s|%s|%s|%s|%s|n%d|q%d|%s|k%d|d%d|%v|%v|%v|%s|%v|o%d", sp.Kind, sp.Proto, sp.Obj, sp.Op, sp.Peer, sp.NPipes, sp.Q, sp.State, sp.K, sp.DUs, sp.FNP, sp.WithDL, sp.Left || sp.SurvZero, w.outcome, sp.Inh, sp.ODUs)
+		c.Sig("%s|%s|%s|%s|%s|n%d|q%d|%s|k%d|d%d|%v|%v|%v|%s|%v|o%d|%s|b%d|%v", sp.Kind, sp.Proto, sp.Obj, sp.Op, sp.Peer, sp.NPipes, sp.Q, sp.State, sp.K, sp.DUs, sp.FNP, sp.WithDL, sp.Left || sp.SurvZero, w.outcome, sp.Inh, sp.ODUs, sp.Blk, sp.BDUs, sp.Early)
 	})
 	return w
 }
@@ -225,7 +230,10 @@ func newWorld(c *mon.Case, sp spec) *world {
 // setOpt sets one of the four options under test on the subject and turns a
 // rejected-but-tabled option into a violation (lost option).
 func (w *world) setOpt(o int, v interface{}) bool {
-	err := w.obj.SetOption(optName[o], v)
+	err, ok := w.guardedSet(w.obj, optName[o], v)
+	if !ok {
+		return false
+	}
 	switch {
 	case err == nil:
 		return true
@@ -237,14 +245,48 @@ func (w *world) setOpt(o int, v interface{}) bool {
 	return false
 }
 
+// guardedSet issues SetOption in its own goroutine and awaits it under the stuck detector: an
+// option call on an object that has a call parked (a filling Send on a full queue, the blocked
+// call of a dl-behind case) must not be able to park the case goroutine itself.  ok=false: the
+// call never returned (reported).
+func (w *world) guardedSet(ep endpoint, name string, v interface{}) (error, bool) {
+	call := mon.Go("SetOption", func() (interface{}, error) { return nil, ep.SetOption(name, v) })
+	if !w.c.AwaitOrViolate("option-call-stuck/"+w.id()+"/"+name, fmt.Sprintf("%s: SetOption(%s, %v) returning (calls parked on the same socket: %s)", w.id(), name, v, w.parkedCalls()), call.Done, mon.AwaitOpts{}) {
+		w.outcome = "option-call-no-return"
+		return nil, false
+	}
+	_, err, _ := call.Result()
+	return err, true
+}
+
+// parkedCalls describes the calls the case has left parked on the subject's socket (for witnesses).
+func (w *world) parkedCalls() string {
+	out := ""
+	if w.parked != nil && !w.parked.Done() {
+		out += "a Send without deadline on the full queue towards the slow peer; "
+	}
+	if w.blk != nil && w.blk.tc != nil && !w.blk.tc.call.Done() {
+		out += w.blk.what + "; "
+	}
+	if out == "" {
+		return "none"
+	}
+	return out[:len(out)-2]
+}
+
 // setQ sets a queue length (never 0) on the subject or, failing that, its socket.
 func (w *world) setQ(name string, q int, required bool) bool {
 	if q <= 0 {
 		panic("queue length 0 is excluded from C18 (DESIGN section 4: D3, D8)")
 	}
-	err := w.obj.SetOption(name, q)
+	err, ok := w.guardedSet(w.obj, name, q)
+	if !ok {
+		return false
+	}
 	if err == mangos.ErrBadOption && w.obj != endpoint(w.sock) {
-		err = w.sock.SetOption(name, q)
+		if err, ok = w.guardedSet(w.sock, name, q); !ok {
+			return false
+		}
 	}
 	if err != nil && required {
 		w.c.Inconclusive("%s: SetOption(%s,%d) = %v", w.sp.Proto, name, q, err)
@@ -497,6 +539,9 @@ func (w *world) prepareSend() bool {
 				return false
 			}
 			w.filler = cx
+		}
+		if w.preFill != nil && !w.preFill() {
+			return false
 		}
 		switch sp.State {
 		case "empty":
